@@ -22,7 +22,8 @@ pub struct Case {
     pub mirror: bool,
     /// which preserving successors are recorded (bit i = i-th preserving move, at least one kept free)
     pub recorded_mask: u16,
-    /// 0 = subset of the preserving moves, 1 = every successor of the root, 2 = subset + the root itself again
+    /// 0 = subset of the preserving moves, 1 = every successor of the root, 2 = subset + the root itself again,
+    /// 3 = subset, recorded by really searching those positions first on the same memory
     pub shape: u8,
     pub extra_depth: u8,
     pub seed: u64,
@@ -109,7 +110,7 @@ impl Prop for Repetition {
             any::<u32>(),
             any::<bool>(),
             1u16..,
-            prop_oneof![6 => Just(0u8), 2 => Just(1u8), 2 => Just(2u8)],
+            prop_oneof![4 => Just(0u8), 2 => Just(1u8), 2 => Just(2u8), 5 => Just(3u8)],
             0u8..=2,
             any::<u64>(),
             any::<u64>(),
@@ -161,8 +162,36 @@ impl Prop for Repetition {
             }
         }
         let mut artifact = search::new_artifact(case.hasher_seed, GEOM);
-        for s in recorded_pos.iter() {
-            verif::record_history(&mut artifact, &glue::state_direct(s));
+        if case.shape == 3 {
+            // the way positions get recorded in real use: each recorded successor was the root of
+            // an earlier search on the same search memory (which also leaves its table entries)
+            for (i, s) in recorded_pos.iter().enumerate() {
+                if !s.has_legal_move() {
+                    verif::record_history(&mut artifact, &glue::state_direct(s));
+                    continue;
+                }
+                let pre = SearchSpec {
+                    depth: Some(1 + ((case.seed >> (8 * (i % 8))) % 4) as u8),
+                    seed: case.seed.rotate_left(i as u32 + 1),
+                    workers: 1,
+                    sched_seed: None,
+                    cancel_after: None,
+                };
+                let (o, back) = search::run(s, &pre, artifact, usize::MAX);
+                loc.eval();
+                match back {
+                    Some(a) => artifact = a,
+                    None => return Err(format!("earlier search of '{}' ({:?}) panicked: {:?}", s.fen(), pre, o.panic)),
+                }
+                if !verif::history_contains(&artifact, &glue::state_direct(s)) {
+                    return Err(format!("after searching '{}' the search memory does not record it as seen", s.fen()));
+                }
+            }
+            loc.class("recorded_by_earlier_searches");
+        } else {
+            for s in recorded_pos.iter() {
+                verif::record_history(&mut artifact, &glue::state_direct(s));
+            }
         }
         if case.shape == 2 {
             // the root itself is recorded as well (the search adds it once more on its own)
@@ -253,7 +282,9 @@ pub fn plan(ctx: &Ctx) -> Plan {
                plies and at least two first moves keep the mate; a generated non-empty subset S of the mate-preserving \
                successors is put into the repetition history (cfg hook record_history) leaving at least one preserving \
                move free; companion shapes: every successor of the root recorded (the evaluation must then be exactly the \
-               draw score), and the root itself recorded in addition (it must still be searched). depth n..n+2, seeds, \
+               draw score), the root itself recorded in addition (it must still be searched), and - the way it \
+               happens in real use - the recorded successors having been roots of earlier searches (depth 1-4) on the \
+               same search memory, which also leaves their table entries behind. depth n..n+2, seeds, \
                1-32 workers under the baton scheduler, fresh 8x1024 memory. The expectation is solved in the game the \
                property defines (recorded positions and the root are terminal draws) by an exhaustive AND/OR search over \
                the 3-man move graph bounded by the depth: if a mate is still forced the final evaluation must be >= \
